@@ -4,8 +4,10 @@ import gen as G
 import conv
 import textmodel as TM
 import props.C17 as C17
+import syntax as SX
 
-COQ_IMPORTS = ['Model.Tokens', 'Model.Parser', 'Model.Regexp', 'Judge.C17_judge', 'Judge.C16_judge']
+COQ_IMPORTS = ['Model.Tokens', 'Model.Parser', 'Model.Regexp', 'Model.CFG', 'Model.RegexpSyntax', 'Model.CFGText', 'Judge.Common', 'Judge.C17_judge', 'Judge.C16_judge', 'Judge.Extra_judge']
+EXTRA_JUDGES = ['Extra']
 RULE = ('random DFAs / NFAs / PDAs / TMs (1-4 states; empty accepting set, empty alphabet, isolated states, several labels per edge, epsilon / blank in {_, ε, e} resp. {_, □}): print_X then parse_X; '
         'regular expressions: all trees <= 4 nodes and random trees over {a,b,c}: print_regexp / str() then parse_regexp, print_regexp_simple then parse_simple_regexp; simple grammars (single-letter names, every variable has a rule): '
         'cfg_print_simple then parse_simple_cfg. Relation: the re-parsed automaton equals the original field by field and equals the model parser\'s result on the same text, and the model printer/parser round trip holds on the object; '
@@ -82,6 +84,7 @@ def observe(c):
         from gambatools.regexp_simple_parser import parse_simple_regexp
         r = conv.re_to_obj(x)
         out = []
+        texts = [t[1] if ok(t) else None for t in (safe(print_regexp_simple, r), safe(print_regexp, r), safe(str, r))]
         for pr, pa in ((print_regexp, parse_regexp), (str, parse_regexp), (print_regexp_simple, parse_simple_regexp)):
             t = safe(pr, r)
             p = safe(pa, t[1]) if ok(t) else ('err', 'print')
@@ -93,7 +96,7 @@ def observe(c):
                     out.append([None, False])
             else:
                 out.append([None, False])
-        return {'re': out}
+        return {'re': out, 'texts': texts}
     from gambatools.cfg_algorithms import cfg_print_simple, parse_simple_cfg
     if c.get('cfg_eps'):
         text0 = 'epsilon = %s\n' % c['cfg_eps'] + conv.cfg_simple_text(x).replace('_', c['cfg_eps'])
@@ -106,7 +109,7 @@ def observe(c):
     if ok(p):
         G2 = p[1]
         same = bool(G2.V == Gm.V and G2.Sigma == Gm.Sigma and G2.S == Gm.S and sorted(map(str, G2.R)) == sorted(map(str, Gm.R)))
-    return {'cfg_same': same, 'text': t[1] if ok(t) else None}
+    return {'cfg_same': same, 'text': t[1] if ok(t) else None, 'G': conv.cfg_case(Gm), 'G2': conv.cfg_case(p[1]) if ok(p) else None}
 
 
 def encode(c, o):
@@ -118,8 +121,23 @@ def encode(c, o):
             return '10'
         return 'judge_rt_%s %s %s %s' % (k, ch.text(o['text']), L.option(o['res'], lambda y: C17.REC[k](ch, y)), C17.REC[k](ch, x))
     if k == 're':
-        return 'judge_rt_re %s %s' % (L.re(x), L.lst(L.pair(L.option(t, L.re), L.boolean(same)) for t, same in o['re']))
-    return '60' if o['cfg_same'] is None else ('0' if o['cfg_same'] else '61')
+        main = 'judge_rt_re %s %s' % (L.re(x), L.lst(L.pair(L.option(t, L.re), L.boolean(same)) for t, same in o['re']))
+        # character-level layer (Model/RegexpSyntax.v): the three printed texts and the trees built by the generated parsers
+        rc = lambda t: 'None' if t is None else '(Some %s)' % SX.re_chars(t)
+        syn = 'judge_re_syntax %s %s %s %s %s %s' % (SX.re_chars(x), SX.opt_codes(o['texts'][0]), SX.opt_codes(o['texts'][1]), SX.opt_codes(o['texts'][2]),
+                                                      rc(o['re'][2][0]), rc(o['re'][0][0]))
+        return 'worst_code [%s; %s]' % (main, syn)
+    main = '60' if o['cfg_same'] is None else ('0' if o['cfg_same'] else '61')
+    g = o.get('G')
+    single = lambda gg: gg is not None and all(len(n) == 1 and SX.codes(n) is not None for n in gg['V'] + gg['Sigma'])
+    if not single(g) or o['text'] is None:
+        return main
+    lines = SX.cfg_lines(o['text'])
+    if lines is None or any(SX.codes(a) is None for _, alts in lines for a in alts):
+        return main
+    g2 = o.get('G2')
+    txt = 'judge_cfg_text %s (Some %s) %s' % (SX.cfg_chars(g), SX.cfg_lines_lit(lines), '(Some %s)' % SX.cfg_chars(g2) if single(g2) else 'None')
+    return 'worst_code [%s; %s]' % (main, txt)
 
 
 def explain(c):
